@@ -5,9 +5,9 @@ HERE = os.path.dirname(os.path.dirname(os.path.abspath(__file__)))
 table = subprocess.run([sys.executable, os.path.join(HERE, 'tools', 'seeded_design_section.py')], capture_output=True, text=True, check=True).stdout
 INTRO = '''### 8.1 Seeded changes and the checks that catch them
 
-Three batches of 20 sub-agents (one per property in each batch) were given only the text of that property and a
+Four batches of sub-agents (20 per batch, one per property; 10 in batch 4, for the properties whose batch-3 change had been missed) were given only the text of that property and a
 private git worktree of `/repo`, nothing from `/verif`, and asked for changes (three each in batch 1, two
-each in batch 2, one each in batch 3 — `<id>/1-3`, `/4-5`, `/6`; later batches were told to avoid the earlier sites) that break the property while the code still compiles and
+each in batch 2, one each in batches 3 and 4 — `<id>/1-3`, `/4-5`, `/6`, `/7`; later batches were told to avoid the earlier sites) that break the property while the code still compiles and
 the existing tests still pass, each needing something specific to manifest, each with a demonstration script.
 A change was kept only after the demonstration passed on the clean tree and failed with the change in a fresh
 scratch worktree here (`tools/seeded_verify.sh`), and the repository's stable suite was run with the change
@@ -22,8 +22,17 @@ Batch 1 was used to strengthen the machinery; **batches 2 and 3 are honest estim
 catches unseen**: 17 of 40, then 10 of 20 at first run (batch 3 ran against the machinery as strengthened by
 batches 1 and 2; its agents had to avoid 5 earlier sites per property, so its changes sit in less central code:
 `clip` with Frame bounds, key functions returning deeper hierarchies, `StoreFilter`, `relabel_level_add`, ...).
-Of the 10 batch-3 misses, 5 are now refuted by contracts / site obligations (G3, G14, `Frame.equals`,
-`sort_index_for_order[key->index]`) and 5 by wider stand-in scopes. In batch 2 every one of the 23 missed changes led to a strengthening (named in the
+Of the 10 batch-3 misses, 6 are now refuted by contracts / site obligations (G3, G14, `Frame.equals`,
+`sort_index_for_order[key->index]`, `_index_many_to_one`) and the others by wider stand-in scopes.
+**Batch 4** (10 changes, the 10 properties whose batch-3 change had been missed, 6 earlier sites to avoid each)
+was caught 2 of 10 at first run: with the central functions excluded the agents moved to peripheral code
+(`consolidate_blocks`, `StoreConfig` pickling, `pivot_stack`, `TypeBlocks.__setstate__`, a fast path in
+`Frame.sort_index`) that no contract covered and whose input classes (datetime units of equal width, falsy
+non-default options, 64-bit ids next to floats, one array object at two block positions) no stand-in enumerated;
+2 of the 8 misses are now refuted by D / G obligations (`Series.equals` once `is` between records was decidable,
+G14 for list aliasing in `TypeBlocks.__copy__` — which the proved value-level contract of `__copy__` cannot see),
+6 by wider stand-in scopes. The honest reading: on central, contracted code the machinery catches unseen changes;
+on the long tail it catches what its enumerations happen to include, and each batch moves that boundary a little. In batch 2 every one of the 23 missed changes led to a strengthening (named in the
 "first run" column): new or completed contracts (`LocMap.bound_offset_slice`, `free_conditions` in the offset
 contract, `IndexHierarchy.from_index_items`, and — written after the stand-ins had been widened —
 `Index.equals`, `_ufunc_logical_skipna`, `SeriesAssign.__call__`, `normalize_container`, which now refute
@@ -37,7 +46,7 @@ The pattern of the misses is the useful
 finding: nearly all need an input *class* the stand-in did not enumerate (mixed dtype of equal width, shared
 index objects, subclass members, auto-generated indices), i.e. exactly what a contract over all inputs covers
 and an enumeration does not — where a contract or site obligation existed for the changed function
-(@DG1@ of the 60 batch-1, @DG2@ of the 40 batch-2 and @DG3@ of the 20 batch-3 changes are refuted by a D or G obligation today)
+(@DG1@ of the 60 batch-1, @DG2@ of the 40 batch-2, @DG3@ of the 20 batch-3 and @DG4@ of the 10 batch-4 changes are refuted by a D or G obligation today)
 the change was caught without knowing the class in advance.
 
 '''
@@ -46,7 +55,7 @@ def _b(l):
     k = l.split('|')[1].strip().split('/')[1]
     return 4 if k == '7' else 3 if k == '6' else 2 if k in ('4', '5') else 1
 dg = lambda b: sum(1 for l in rows if _b(l) == b and ('**D**' in l or '**G**' in l))
-INTRO = INTRO.replace('@DG2@', str(dg(2))).replace('@DG1@', str(dg(1))).replace('@DG3@', str(dg(3)))
+INTRO = INTRO.replace('@DG2@', str(dg(2))).replace('@DG1@', str(dg(1))).replace('@DG3@', str(dg(3))).replace('@DG4@', str(dg(4)))
 p = os.path.join(HERE, 'DESIGN.md')
 s = open(p).read()
 a = s.index('### 8.1 Seeded changes')
